@@ -621,7 +621,7 @@ fn main() {
     total.merge(explore_tree(&pairs_inf, run.threads));
     total.merge(explore_tree(&bools, run.threads));
     let meta = Meta {
-        rule: "history tree of every word over the value alphabet (numeric), over {null,0,1,3}^2 (two-series and masked aggregations), over {null,T,F} (any/all); every aggregation, every min_periods 0..=len+1, element types f64/f32/i32/Option<f64>/Option<i32>, sources owned / borrowed iterator / option view; compared with two-pass textbook definitions on the non-null sub-list, plus the permutation relation agg(word) == agg(sorted word) for the symmetric ones. Non-trivial = word with a non-null element. Also (DESIGN 5.15, 5.16): infinite observations for counts, positions and extrema (numeric-inf); NaN kinds (numeric-nan-kinds); sources of unknown announced length (filtered: hint (0,n); flat-mapped: hint (0,None)); i32 series whose sum leaves the type (numeric-wide-sum, aggregations with an f64 result). Round 8 (DESIGN 5.17): the convenience wrapper vcorr(other, min_periods: Option, Pearson) for omitted min_periods and 0..=len+1. Round 9 (DESIGN 5.18): the masked aggregations n_sum_filter / vmean_filter on words with infinities (numeric-inf); infinities in the two-series statistics (pairs-inf).".into(),
+        rule: "history tree of every word over the value alphabet (numeric), over {null,0,1,3}^2 (two-series and masked aggregations), over {null,T,F} (any/all); every aggregation, every min_periods 0..=len+1, element types f64/f32/i32/Option<f64>/Option<i32>, sources owned / borrowed iterator / option view; compared with two-pass textbook definitions on the non-null sub-list, plus the permutation relation agg(word) == agg(sorted word) for the symmetric ones. Non-trivial = word with a non-null element. Also (DESIGN 5.15, 5.16): infinite observations for counts, positions and extrema (numeric-inf); NaN kinds (numeric-nan-kinds); sources of unknown announced length (filtered: hint (0,n); flat-mapped: hint (0,None)); i32 series whose sum leaves the type (numeric-wide-sum, aggregations with an f64 result). Round 8 (DESIGN 5.17): the convenience wrapper vcorr(other, min_periods: Option, Pearson) for omitted min_periods and 0..=len+1. Round 9 (DESIGN 5.18): the masked aggregations n_sum_filter / vmean_filter on words with infinities (numeric-inf); infinities in the two-series statistics (pairs-inf). Round 10 (DESIGN 5.19): numeric-constant - constant series of non-dyadic values (0.1 .. 1000000.7, 2..12 observations, nulls in between, four sources): variance and standard deviation are in [0, rounding at the value's magnitude], never negative, never null.".into(),
         bounds: json!({"numeric": {"alphabet": json_word(&num.alpha), "L": num.max_len}, "pairs": {"alphabet": json_word(&pairs.alpha), "L": pairs.max_len}, "bools": {"L": bools.max_len},
                        "min_periods": "0..=len+1"}),
         assumptions: vec![
